@@ -341,6 +341,17 @@ class Result:
         self.extra = {}
 
     def obligation(self, name, ok, detail=''):
+        # Line-coverage of the anchored functions by the tied calls is a
+        # measure of generator quality, not a proof obligation: it depends on
+        # the seed, and a harmless rewrite that adds an unexecuted line must
+        # not raise an alarm.  It is therefore recorded in the evidence
+        # (coverage.line_coverage) and never decides the verdict.
+        low = name.lower()
+        if low.startswith(('coverage', 'line coverage')) or ' coverage (' in low:
+            self.extra.setdefault('line_coverage', []).append(
+                {'what': name[:300], 'complete': bool(ok),
+                 'detail': str(detail)[:600]})
+            return
         self.obligations.append((name, bool(ok), detail))
 
     def count(self, key, n=1):
